@@ -35,6 +35,11 @@ CLAIMED = {
     note=TB + "Regular-expression matching is Python's re (the model receives the set of matching strings).",
     technique="Lean 4 proof (List.filter algebra) + model/implementation correspondence",
     design="7/C18"),
+  "C11": dict(
+    text="Lean 4 theorems over a model that keeps the list and the dictionary side by side as the class does: C11_inv_reachable (every reachable table is duplicate-free and the dictionary is exactly the inverse of the list), C11_ids_stable / C11_decode_stable (append-only: an assigned id never changes), C11_decode_encode, C11_reencode_correct (every rank's local ids re-encode to global ids that decode to the same strings), C11_global_any_order (for every permutation of the ranks' local tables the global table is a bijection on exactly the union of the vocabularies), C11_numbering_free. Tied to TraceSymbolTable by op sequences with repeats, to multi-rank parsing (sequential and pooled, with worker completion orders forced by injected delays) by the recorded sequence of local tables, and to hash-seed / pool independence by re-running a battery of eight analyses in subprocesses under other PYTHONHASHSEED values.",
+    note=TB + "Partial for the scheduling clause: Pool.map's ordering guarantee is trusted, OS scheduling is not modelled, completion orders are forced for <= 3 ranks only. The manager-queue variant add_symbols_mp is checked for bijection, prefix stability and content only.",
+    technique="Lean 4 proof (invariant by induction over additions; refinement of list+dict to a bijection) + model/implementation correspondence + hash-seed metamorphic run",
+    design="7/C11"),
   "C04": dict(
     text="Lean 4 theorem C04_temporal_partition: for every non-empty list of non-negative device intervals and every start-sorted permutation of it, the merge routine's numbers equal the unit-cell measures of the span/idle/compute/remainder and sum exactly to kernel_time. Tied to the code by a differential run of get_temporal_breakdown against the executable model, plus Spec.C04.check and an independent Python oracle evaluated on the implementation's own output.",
     note=TB + "Percent columns compared within 0.006 (float rounding not modelled). Kernel-type regexes modelled as prefix/infix tests and compared against Python re on every generated name.",
